@@ -515,3 +515,23 @@ def sp_istransport(w, ex, node):
 
 
 SPEC_FUNCS.update({'SIG': sp_SIG, 'PUBKEY': sp_PUBKEY, 'istransport': sp_istransport})
+
+
+def sp_dents_are(w, ex, node):
+    """dents_are(files, lid, f1, n): files[j] == DeviceFile(FS_data(lid, f1+j), FS_w(lid, f1+j, 1), FS_w(.., 2), FS_w(.., 3)) for j < n."""
+    from pyvc import specfuns as SF
+    files, lid, f1, n = [ex.eval(a) for a in node.args]
+    lid, f1, n = to_int(lid), to_int(f1), to_int(n)
+    if isinstance(files, VList):
+        cl = [z3.BoolVal(True), n == len(files.items)]
+        for j, it in enumerate(files.items):
+            cl.append(veq(it, VTuple([VBytes(SF.FS_data(lid, f1 + j), True), VInt(SF.FS_w(lid, f1 + j, 1)), VInt(SF.FS_w(lid, f1 + j, 2)),
+                                     VInt(SF.FS_w(lid, f1 + j, 3))])))
+        return VBool(z3.And(*cl))
+    j = z3.Int('__dj')
+    e = files.elem(j)
+    body = veq(e, VTuple([VBytes(SF.FS_data(lid, f1 + j), True), VInt(SF.FS_w(lid, f1 + j, 1)), VInt(SF.FS_w(lid, f1 + j, 2)), VInt(SF.FS_w(lid, f1 + j, 3))]))
+    return VBool(z3.ForAll([j], z3.Implies(z3.And(j >= 0, j < n), body)))
+
+
+SPEC_FUNCS['dents_are'] = sp_dents_are
